@@ -143,9 +143,35 @@ func (core *JApiCore) HasUnclosedExplicitContext() bool {
 	return false
 }
 
+// explicitContextDepth returns the number of explicitly opened and not yet closed
+// contexts.
+func (core *JApiCore) explicitContextDepth() int {
+	n := 0
+	for d := core.currentContextDirective; d != nil; d = d.Parent {
+		if d.HasExplicitContext {
+			n++
+		}
+	}
+	return n
+}
+
+// fileExplicitContextDepth returns the number of explicit contexts which were
+// open at the beginning of the currently scanned file: they were opened by the
+// files which include the current one, and should be closed there.
+func (core *JApiCore) fileExplicitContextDepth() int {
+	if l := len(core.includeContextDepths); l != 0 {
+		return core.includeContextDepths[l-1]
+	}
+	return 0
+}
+
 func (core *JApiCore) processContextEnd() *jerr.JApiError {
 	if je := core.processCurrentDirective(); je != nil {
 		return je
+	}
+	if core.explicitContextDepth() <= core.fileExplicitContextDepth() {
+		// An included file cannot close a context opened outside of it.
+		return core.japiError(jerr.ThereIsNoExplicitContextForClosure, core.scanner.CurrentIndex()-1)
 	}
 	return core.closeLastExplicitContext()
 }
@@ -155,7 +181,9 @@ func (core *JApiCore) processEOF() *jerr.JApiError {
 	if je := core.processCurrentDirective(); je != nil {
 		return je
 	}
-	if core.HasUnclosedExplicitContext() {
+	// Only the contexts opened in the current file should be closed at the end of
+	// it. The contexts opened by the including files can still be closed there.
+	if core.explicitContextDepth() > core.fileExplicitContextDepth() {
 		return core.japiError(jerr.ContextNotClosed, core.scanner.CurrentIndex()-1)
 	}
 	return nil
@@ -197,6 +225,7 @@ func (core *JApiCore) isScanningFinished() bool {
 		return true
 	}
 	core.scanner = s
+	core.includeContextDepths = core.includeContextDepths[:len(core.includeContextDepths)-1]
 	return false
 }
 
